@@ -179,6 +179,7 @@ package consensus
 //@   ensures @nonzero wval(result.Difficulty) >= 1
 //@   ensures @clamp !genesis ==> wval(result.Difficulty) <= wval(s.Difficulty) + max(wval(s.Difficulty) / 250, 1) && wval(result.Difficulty) + max(wval(s.Difficulty) / 250, 1) >= wval(s.Difficulty)
 //@   ensures @target-inverse !genesis && result.Index.Height < s.Network.HardforkV2.FinalCutHeight ==> types.b256(result.ChildTarget) == (W256 - 1) / wval(result.Difficulty) && types.b256(result.Depth) == (W256 - 1) / wval(result.TotalWork)
+//@   ensures @deprecated-zeroed result.Index.Height >= s.Network.HardforkV2.FinalCutHeight ==> iszero(result.Depth) && iszero(result.ChildTarget) && iszero(result.OakTarget)
 //@   ensures @oak-work wval(result.OakWork) == wval(s.OakWork) - wval(s.OakWork) / 200 + wval(s.Difficulty)
 //@   ensures @index result.Index.ID == bh.ID() && (genesis ? result.Index.Height == 0 : result.Index.Height == cheight(s))
 //@   ensures @timestamps result.PrevTimestamps[0] == bh.Timestamp && forall k in 1..11 :: result.PrevTimestamps[k] == s.PrevTimestamps[k-1]
@@ -967,15 +968,24 @@ package consensus
 //@ spec tsEnv(ts V1TransactionSupplement) bool = (forall j in 0..len(ts.SiacoinInputs) :: types.u128(ts.SiacoinInputs[j].SiacoinOutput.Value) < EB) && (forall j in 0..len(ts.SiafundInputs) :: ts.SiafundInputs[j].SiafundOutput.Value <= 10000) && fcsWFts(ts)
 
 //@ func (*MidState).createFileContractElement
+//@   exit-assert @creates-listed-contract fced.FileContractElement.ID == id && fced.FileContractElement.FileContract == fc && fced.FileContractElement.StateElement.LeafIndex == types.UnassignedLeafIndex && fced.Created
 //@   prop C01
 //@   asserts-only
 //@   at call:Currency.Add#1 assert @pool-grows-by-contract-tax $arg1 == ms.base.FileContractTax(fc)
 //@   trusted
 //@   modifies ms
+// a v1 revision is recorded with the payout of the contract it revises (revisions do not carry one)
+//@ spec revOf(got types.FileContract, rev types.FileContract, payout types.Currency) bool = got.Payout == payout && got.Filesize == rev.Filesize && got.FileMerkleRoot == rev.FileMerkleRoot && got.WindowStart == rev.WindowStart && got.WindowEnd == rev.WindowEnd && got.ValidProofOutputs == rev.ValidProofOutputs && got.MissedProofOutputs == rev.MissedProofOutputs && got.UnlockHash == rev.UnlockHash && got.RevisionNumber == rev.RevisionNumber
 //@ func (*MidState).reviseFileContractElement
+//@   prop C01 C07
+//@   asserts-only
+//@   exit-assert @latest-revision-kept (fced.Created ? revOf(fced.FileContractElement.FileContract, rev, fce.FileContract.Payout) : fced.Revision != nil && revOf(deref(fced.Revision), rev, fce.FileContract.Payout))
 //@   trusted
 //@   modifies ms
 //@ func (*MidState).resolveFileContractElement
+//@   prop C01 C07
+//@   asserts-only
+//@   exit-assert @records-resolution fced.FileContractElement.ID == fce.ID && fced.FileContractElement.FileContract == fce.FileContract && fced.Resolved && fced.Valid == valid
 //@   trusted
 //@   modifies ms
 // A full block reaches the proof-of-work fields of its state through ApplyHeader, applied to the
@@ -1036,21 +1046,42 @@ package consensus
 // address, and a resolved contract pays out once: the final outputs on a renewal, the valid
 // outputs on a storage proof, the renter output and the missed host value on an expiration.
 //@ func (*MidState).spendSiacoinElement
+//@   prop C01 C07
+//@   asserts-only
+//@   exit-assert @records-spend sced.SiacoinElement.ID == sce.ID && sced.SiacoinElement.SiacoinOutput == sce.SiacoinOutput && sced.SiacoinElement.MaturityHeight == sce.MaturityHeight && sced.SiacoinElement.StateElement.LeafIndex == sce.StateElement.LeafIndex && sced.Spent
 //@   trusted
 //@   modifies ms
 //@ func (*MidState).spendSiafundElement
+//@   prop C01 C07
+//@   asserts-only
+//@   exit-assert @records-spend sfed.SiafundElement.ID == sfe.ID && sfed.SiafundElement.SiafundOutput == sfe.SiafundOutput && sfed.SiafundElement.ClaimStart == sfe.ClaimStart && sfed.SiafundElement.StateElement.LeafIndex == sfe.StateElement.LeafIndex && sfed.Spent
 //@   trusted
 //@   modifies ms
 //@ func (*MidState).createSiacoinElement
+//@   prop C01 C07
+//@   asserts-only
+//@   exit-assert @creates-listed-element sced.SiacoinElement.ID == id && sced.SiacoinElement.SiacoinOutput == sco && sced.SiacoinElement.MaturityHeight == 0 && sced.SiacoinElement.StateElement.LeafIndex == types.UnassignedLeafIndex && sced.Created
 //@   trusted
 //@   modifies ms
 //@ func (*MidState).createImmatureSiacoinElement
+//@   prop C01 C07
+//@   asserts-only
+//@   exit-assert @matures-after-delay sced.SiacoinElement.MaturityHeight == ms.base.MaturityHeight()
 //@   trusted
 //@   modifies ms
 //@ func (*MidState).createSiafundElement
+//@   prop C01 C07
+//@   asserts-only
+//@   exit-assert @claim-starts-at-current-pool sfed.SiafundElement.ID == id && sfed.SiafundElement.SiafundOutput == sfo && sfed.SiafundElement.ClaimStart == ms.siafundTaxRevenue && sfed.SiafundElement.StateElement.LeafIndex == types.UnassignedLeafIndex && sfed.Created
 //@   trusted
 //@   modifies ms
 //@ func (*MidState).recordV2FileContractElement
+//@   trusted
+//@   modifies ms
+//@ func (*MidState).recordSiacoinElement
+//@   trusted
+//@   modifies ms
+//@ func (*MidState).recordSiafundElement
 //@   trusted
 //@   modifies ms
 //@ func (*MidState).recordFileContractElement
@@ -1058,15 +1089,22 @@ package consensus
 //@   modifies ms
 // creating a contract adds exactly its tax to the siafund pool
 //@ func (*MidState).createV2FileContractElement
+//@   exit-assert @creates-listed-contract fced.V2FileContractElement.ID == id && fced.V2FileContractElement.V2FileContract == fc && fced.V2FileContractElement.StateElement.LeafIndex == types.UnassignedLeafIndex && fced.Created
 //@   prop C01
 //@   asserts-only
 //@   at call:Currency.Add#1 assert @pool-grows-by-contract-tax $arg1 == ms.base.V2FileContractTax(fc)
 //@   trusted
 //@   modifies ms
 //@ func (*MidState).reviseV2FileContractElement
+//@   prop C01 C07
+//@   asserts-only
+//@   exit-assert @latest-revision-kept (fced.Created ? fced.V2FileContractElement.V2FileContract == rev : fced.Revision != nil && deref(fced.Revision) == rev)
 //@   trusted
 //@   modifies ms
 //@ func (*MidState).resolveV2FileContractElement
+//@   prop C01 C07
+//@   asserts-only
+//@   exit-assert @records-resolution fced.V2FileContractElement.ID == fce.ID && fced.V2FileContractElement.V2FileContract == fce.V2FileContract && fced.Resolution == res
 //@   trusted
 //@   modifies ms
 //@ func (*MidState).createAttestationElement
